@@ -90,6 +90,13 @@ type Inner struct {
 	Q string
 }
 
+// InnerP is embedded by pointer.
+type InnerP struct {
+	F float64
+	S string
+	N int64
+}
+
 type SerStruct struct {
 	N int
 	S string
